@@ -6,7 +6,7 @@ import math
 import numpy as np
 import quaternion
 
-from .. import gen, reach
+from .. import gen, reach, repo
 from ..oracle import embed, refq
 
 ID = "C04"
@@ -262,13 +262,26 @@ _SOLVE_COUNTER = [0]
 
 
 def solve(R, A, b, *, tol=1e-6, cap=None, prec=None, sparse=False):
-    S = R.solver.QGMRESSolver(tol=tol, max_iter=cap, verbose=False, preconditioner=prec)
     _SOLVE_COUNTER[0] += 1
     k = _SOLVE_COUNTER[0]
+    # call forms on a rotating subset: verbose=True (prints only), 'none' spelled out (the documented name of the default), and the defaults left
+    # out of the constructor call
+    vb = k % 5 == 0
+    pname = prec if k % 3 else ({None: "none"}.get(prec, prec))
+    kw = {"tol": tol, "max_iter": cap, "verbose": vb, "preconditioner": pname}
+    if prec is None and k % 4 == 1:
+        kw.pop("preconditioner")
+    if pname is None:
+        kw.pop("preconditioner", None)
+    if cap is None and k % 2:
+        kw.pop("max_iter")
+    if not vb and k % 7 == 3:
+        kw.pop("verbose")
+    S = R.solver.QGMRESSolver(**kw)
     # the same system in other memory layouts (Fortran order, strided, transposed view, read-only) on a rotating subset of calls
     Ain = R.sparse_from_dense(A) if sparse else gen.vary(A, k)
     bin_ = gen.vary(b, k // 7)
-    with np.errstate(all="ignore"):
+    with np.errstate(all="ignore"), repo.quiet():
         x, info = S.solve(Ain, bin_)
     return x, info
 
